@@ -92,7 +92,13 @@ def run_case(case, seed):
     rk = O.rank(A)
     lead_rk = O.rank(A[:, : min(m, n)]) if A[:, : min(m, n)].size else 0
     k = min(m, n)
-    tags = {"wide": m < n, "coldef": n - rk, "rank": rk, "lead_def": k - lead_rk, "kind": case["kind"], "m": m, "n": n}
+    nz_lead = sum(1 for j in range(k) if A[:, j].any())
+    # 'finding_zone': the leading columns are rank deficient in a way that makes the real QR non-unique AND
+    # (as observed on the pinned tree) breaks the contraction: a dependency among NON-ZERO leading columns, or any
+    # leading deficiency of a wide input.  Exactly-zero leading columns of tall/square inputs are handled correctly.
+    lead_dep = nz_lead - lead_rk
+    tags = {"wide": m < n, "coldef": n - rk, "rank": rk, "lead_def": k - lead_rk, "lead_dep": lead_dep,
+            "finding_zone": bool(lead_dep >= 1 or (m < n and k - lead_rk >= 1)), "kind": case["kind"], "m": m, "n": n}
     Aq = G.to_quat(A)
     before = Aq.tobytes()
     ok, res = call(lib.qsvd.qr_qua, Aq)
